@@ -3,6 +3,7 @@ an array-valued expression is evaluated for one generic element; elementwise
 numpy functions are the scalar functions below; reductions are uninterpreted."""
 import ast
 import z3
+from .path import guarded_check
 
 from .values import *   # pylint: disable=wildcard-import
 from .path import Unsupported
@@ -79,7 +80,7 @@ class NumericMixin:
     for c in self.path.assumed:
       s.add(c)
     s.add(this if is_any else z3.Not(this))
-    if s.check() == z3.unsat:
+    if guarded_check('reduce', s, 2000) == z3.unsat:
       return VBool(not is_any)       # impossible (any) / certain (all) for every element
     others = self.fresh_bool('other_elements')
     return VBool(z3.Or(this, others) if is_any else z3.And(this, others))
